@@ -22,7 +22,7 @@ func HarnessDecode() {
 	var c wal.BinaryCodec
 	var l raft.Log
 	// whatever the bytes claim, decoding allocates no more than a small multiple of the input
-	vrt.AllocLimit("C11.decode-allocation-bounded-by-the-input", 4096+2*n)
+	vrt.AllocLimit("C11.decode-allocation-bounded-by-the-input", 65536+2*n)
 	err := c.Decode(buf, &l)
 	vrt.AllocLimit("", 0)
 	vrt.Assert("C11.decode-alloc-bounded", len(l.Data) <= n && len(l.Extensions) <= n)
@@ -63,7 +63,7 @@ func HarnessDecodeMutated() {
 		vrt.Reach("byte-overwritten")
 	}
 	var out raft.Log
-	vrt.AllocLimit("C11.decode-allocation-bounded-by-the-input", 4096+2*len(bs))
+	vrt.AllocLimit("C11.decode-allocation-bounded-by-the-input", 65536+2*len(bs))
 	err := c.Decode(bs, &out)
 	vrt.AllocLimit("", 0)
 	vrt.Assert("C11.decode-alloc-bounded", len(out.Data) <= len(bs) && len(out.Extensions) <= len(bs))
